@@ -1,15 +1,12 @@
 /-
   C08 — Row limits only truncate the true answer.
 
-  Model: `Engine.run` with `cfg.limit = n`: after **every** head that is not on the partitioned
-  path the result is cut to the first `n` tuples of an emission order `ord` (a parameter: the order
-  in which Differential Dataflow hands records to `inspect` is unspecified; code_generator:258-266,
-  1203-1211; `set_max_result_rows` on every per-head generator, lib.rs:1652).
-  Full statement false of the faithful model (`C08_refuted`: negation over a truncated
-  intermediate head returns a tuple outside the unlimited answer). Proved:
-  `C08_final_truncation` (what the limit does at the last head, any program) and `C08_partial`
-  (programs with one head — the shape `__q(..) <- stored relations` — satisfy the property for
-  every emission order that is a permutation).
+  Model: `Engine.run` with `cfg.limit = n` (after fixes/C08-limit_truncates_intermediate_head.diff):
+  `max_result_rows` is set on the generator of the **last executed head only** (lib.rs:1652); the
+  capture keeps the first `n` records `inspect` sees (code_generator:258-266, 1203-1211), i.e.
+  `(ord q ts).take n` for an emission order `ord` (a parameter: Differential Dataflow's order is
+  unspecified). Intermediate heads — user views and the relations SIP introduces — are evaluated
+  in full.
 -/
 import ILV.Lemmas.WellFormed
 import ILV.Drv.C08
@@ -30,95 +27,70 @@ def C08_statement : Prop :=
     Engine.run (cfgL 0) hash ord fuel p edb = .ok A acc' →
     (∀ t, t ∈ R → t ∈ A) ∧ R.length = min n A.length
 
-/-- `a(X) <- n(X), X > 1.  b(X) <- n(X), !a(X).  q(X) <- b(X)` over n = {1,2,3,4}, limit 2. -/
+/-- `a(X) <- n(X), X > 1.  b(X) <- n(X), !a(X).  q(X) <- b(X)` over n = {1,2,3,4}, limit 2:
+    the former counterexample. -/
 def negOverTruncated : Program := [
   { hrel := "a", hargs := [.var "X"], body := [.pos ⟨"n", [.var "X"]⟩, .cmp .gt (.var "X") (.const 1)] },
   { hrel := "b", hargs := [.var "X"], body := [.pos ⟨"n", [.var "X"]⟩, .neg ⟨"a", [.var "X"]⟩] },
   { hrel := "q", hargs := [.var "X"], body := [.pos ⟨"b", [.var "X"]⟩] } ]
 def four : DB := [("n", [[.i64 1], [.i64 2], [.i64 3], [.i64 4]])]
 
-theorem C08_refuted : ¬ C08_statement := by
-  intro h
-  have hl : Engine.run (cfgL 2) (fun _ => 0) (fun _ ts => ts) 4 negOverTruncated four =
-      .ok [[.i64 1], [.i64 4]] [("q", [[.i64 1], [.i64 4]]), ("b", [[.i64 1], [.i64 4]]), ("a", [[.i64 2], [.i64 3]])] := by decide
-  have hu : Engine.run (cfgL 0) (fun _ => 0) (fun _ ts => ts) 4 negOverTruncated four =
-      .ok [[.i64 1]] [("q", [[.i64 1]]), ("b", [[.i64 1]]), ("a", [[.i64 2], [.i64 3], [.i64 4]])] := by decide
-  have := (h negOverTruncated four 2 _ _ 4 _ _ _ _ (by decide) (fun _ _ => List.Perm.refl _) hl hu).1 [.i64 4] (by decide)
-  revert this; decide
-
-example : Drv.C08.limitTruncatesIntermediate (cfgL 2) negOverTruncated four = true := by decide
+example : Engine.run (cfgL 2) (fun _ => 0) (fun _ ts => ts) 4 negOverTruncated four =
+    .ok [[.i64 1]] [("q", [[.i64 1]]), ("b", [[.i64 1]]), ("a", [[.i64 2], [.i64 3], [.i64 4]])] := by decide
 
 theorem take_perm_props {ts o : List Tuple} (n : Nat) (hp : o.Perm ts) :
     (∀ t, t ∈ o.take n → t ∈ ts) ∧ (o.take n).length = min n ts.length := by
   refine ⟨fun t ht => hp.subset (List.mem_of_mem_take ht), ?_⟩
   rw [List.length_take, hp.length_eq]
 
-/-- **What the limit does at the last head, for every program**: in a successful limited run, the
-    answer is the first `n` tuples (in emission order) of the last head's evaluation `T` over the
-    accumulated intermediates — so it is a subset of `T` of size `min n |T|`; nothing is invented at
-    this step. (Whether `T` is the true answer depends on the intermediates having been truncated.) -/
-theorem C08_final_truncation (n : Nat) (hash : Tuple → Nat) (ord : String → List Tuple → List Tuple) (hord : OrdPerm ord)
-    (fuel : Nat) (p : Program) (edb : DB) :
-    ∀ (order : List String) (acc : DB) (last R : List Tuple) (acc' : DB), order ≠ [] →
-      execLoop (cfgL n) hash ord fuel p edb order acc last = .ok R acc' →
-      ∃ (g : String) (acc0 : DB) (T : List Tuple), order.getLast? = some g ∧
-        evalHead (cfgL n) hash fuel p (lkOf edb acc0) g = some T ∧
-        ((∀ t, t ∈ R → t ∈ T) ∧ (0 < n → R.length = min n T.length) ∧ (n = 0 → R = T))
-  | [], _, _, _, _, hne, _ => absurd rfl hne
-  | [h], acc, last, R, acc', _, hr => by
-    unfold execLoop at hr
-    cases hev : evalHead (cfgL n) hash fuel p (lkOf edb acc) h with
-    | none => rw [hev] at hr; simp at hr
+theorem execLoop_limit (n : Nat) (hn : 0 < n) (hash : Tuple → Nat) (ord : String → List Tuple → List Tuple)
+    (hord : OrdPerm ord) (fuel : Nat) (p : Program) (edb : DB) :
+    ∀ (order : List String) (acc : DB) (last R A : List Tuple) (accn acc0 : DB), order ≠ [] →
+      execLoop (cfgL n) hash ord fuel p edb order acc last = .ok R accn →
+      execLoop (cfgL 0) hash ord fuel p edb order acc last = .ok A acc0 →
+      (∀ t, t ∈ R → t ∈ A) ∧ R.length = min n A.length
+  | [], _, _, _, _, _, _, hne, _, _ => absurd rfl hne
+  | [h], acc, last, R, A, accn, acc0, _, hl, hu => by
+    unfold execLoop at hl hu
+    have hsame : evalHead (cfgL n) hash fuel p (lkOf edb acc) h = evalHead (cfgL 0) hash fuel p (lkOf edb acc) h := rfl
+    rw [hsame] at hl
+    cases hev : evalHead (cfgL 0) hash fuel p (lkOf edb acc) h with
+    | none => rw [hev] at hu; simp at hu
     | some ts =>
-      rw [hev] at hr
-      simp only [execLoop, Outcome.ok.injEq] at hr
-      obtain ⟨rfl, _⟩ := hr
-      refine ⟨h, acc, ts, rfl, hev, ?_⟩
-      have hlim : limited (cfgL n) p h = decide (n > 0) := by simp [limited, cfgL]
-      rw [hlim]
-      by_cases hn : 0 < n
-      · simp only [hn, decide_true, if_true]
-        have := take_perm_props n (hord h ts)
-        exact ⟨this.1, fun _ => this.2, fun h0 => by omega⟩
-      · have h0 : n = 0 := by omega
-        subst h0
-        simp
-  | h :: g :: rest, acc, last, R, acc', _, hr => by
-    unfold execLoop at hr
-    cases hev : evalHead (cfgL n) hash fuel p (lkOf edb acc) h with
-    | none => rw [hev] at hr; simp at hr
+      rw [hev] at hl hu
+      simp only [execLoop, Outcome.ok.injEq] at hl hu
+      obtain ⟨rfl, _⟩ := hl
+      obtain ⟨rfl, _⟩ := hu
+      have hlim : limited (cfgL n) p h = true := by simp [limited, cfgL, hn]
+      have hlim0 : limited (cfgL 0) p h = false := by simp [limited, cfgL]
+      simp only [hlim, hlim0, List.isEmpty_nil, Bool.and_self, Bool.and_false, if_true, Bool.false_eq_true, if_false]
+      exact take_perm_props n (hord h ts)
+  | h :: g :: rest, acc, last, R, A, accn, acc0, _, hl, hu => by
+    unfold execLoop at hl hu
+    have hsame : evalHead (cfgL n) hash fuel p (lkOf edb acc) h = evalHead (cfgL 0) hash fuel p (lkOf edb acc) h := rfl
+    rw [hsame] at hl
+    cases hev : evalHead (cfgL 0) hash fuel p (lkOf edb acc) h with
+    | none => rw [hev] at hu; simp at hu
     | some ts =>
-      rw [hev] at hr
-      obtain ⟨g', acc0, T, hg, hT, hprops⟩ := C08_final_truncation n hash ord hord fuel p edb (g :: rest) _ _ R acc' (by simp) hr
-      exact ⟨g', acc0, T, by simpa [List.getLast?_cons_cons] using hg, hT, hprops⟩
+      rw [hev] at hl hu
+      simp only [List.isEmpty_cons, Bool.false_and, Bool.false_eq_true, if_false] at hl hu
+      exact execLoop_limit n hn hash ord hord fuel p edb (g :: rest) _ _ R A accn acc0 (by simp) hl hu
 
-/-- **C08 for programs with a single head** (no intermediate head exists): for every limit,
-    partitioner, fuel and every emission order that is a permutation, the limited answer is a
-    subset of the unlimited answer of size `min n |A|`. -/
-theorem C08_partial (p : Program) (edb : DB) (n : Nat) (hash : Tuple → Nat) (ord : String → List Tuple → List Tuple)
-    (fuel : Nat) (R A : List Tuple) (acc acc' : DB) (q : String)
-    (hn : 0 < n) (hord : OrdPerm ord) (hone : execOrder p = [q])
-    (hl : Engine.run (cfgL n) hash ord fuel p edb = .ok R acc)
-    (hu : Engine.run (cfgL 0) hash ord fuel p edb = .ok A acc') :
-    (∀ t, t ∈ R → t ∈ A) ∧ R.length = min n A.length := by
+/-- **C08, for all programs**: for every limit `n > 0`, partitioner, fuel and every emission order
+    that is a permutation, the limited answer is a subset of the unlimited answer and has exactly
+    `min n |A|` rows. -/
+theorem C08 : C08_statement := by
+  intro p edb n hash ord fuel R A acc acc' hn hord hl hu
   have hl' := run_loop _ _ _ _ _ _ _ _ hl
   have hu' := run_loop _ _ _ _ _ _ _ _ hu
-  rw [hone] at hl' hu'
-  unfold execLoop at hl' hu'
-  have hsame : evalHead (cfgL n) hash fuel p (lkOf edb []) q = evalHead (cfgL 0) hash fuel p (lkOf edb []) q := rfl
-  rw [hsame] at hl'
-  cases hev : evalHead (cfgL 0) hash fuel p (lkOf edb []) q with
-  | none => rw [hev] at hu'; simp at hu'
-  | some ts =>
-    rw [hev] at hl' hu'
+  by_cases hne : execOrder p = []
+  · -- no head: both runs answer the empty initial result
+    rw [hne] at hl' hu'
     simp only [execLoop, Outcome.ok.injEq] at hl' hu'
     obtain ⟨rfl, _⟩ := hl'
     obtain ⟨rfl, _⟩ := hu'
-    have hlim : limited (cfgL n) p q = true := by simp [limited, cfgL, hn]
-    have hlim0 : limited (cfgL 0) p q = false := by simp [limited, cfgL]
-    rw [hlim, hlim0]
-    simp only [if_true, Bool.false_eq_true, if_false]
-    exact take_perm_props n (hord q ts)
+    simp
+  · exact execLoop_limit n hn hash ord hord fuel p edb (execOrder p) [] [] R A acc acc' hne hl' hu'
 
 /-- a one-head query with a join and a comparison over 5 facts, limit 2, reversed emission order. -/
 def oneHead : Program := [
@@ -126,7 +98,7 @@ def oneHead : Program := [
     body := [.pos ⟨"e", [.var "X", .var "Y"]⟩, .pos ⟨"e", [.var "Y", .var "Z"]⟩, .cmp .ne (.var "X") (.var "Z")] } ]
 def ring : DB := [("e", [[.i64 0, .i64 1], [.i64 1, .i64 2], [.i64 2, .i64 3], [.i64 3, .i64 0], [.i64 0, .i64 2]])]
 
-example : execOrder oneHead = ["q"] ∧
+example :
     (Engine.run (cfgL 2) (fun _ => 0) (fun _ ts => ts.reverse) 4 oneHead ring).toWire = "i64:0,i64:3;i64:3,i64:2" ∧
     (Engine.run (cfgL 0) (fun _ => 0) (fun _ ts => ts.reverse) 4 oneHead ring).toWire
       = "i64:0,i64:2;i64:0,i64:3;i64:1,i64:3;i64:2,i64:0;i64:3,i64:1;i64:3,i64:2" := by
